@@ -43,3 +43,9 @@ claim("C14", "model_checking", "deviation-bounded exploration of set-iteration o
       "repeated in-process calls. A violation is reported only when two real runs differ.",
       "Hash seeds are a finite list; set displays bypass the seam (listed by an AST pass); KD-tree pair sets contain int tuples whose order does not depend on the seed.",
       "DESIGN.md 3/C14")
+
+claim("C20", "exploration", "bounded exhaustive enumeration of documents (deviation-bounded) x all edit operations on the real code, judged through an independent CIF tokenizer",
+      "Every generated document within 2 (quick) / 3 (thorough, reduced list) deviations of the base document and the corpus mmCIF files, under every "
+      "copy (category, from, to) and replace (category, item, alphabet) choice incl. absent and new ones: only the target item changes, "
+      "copy/replace semantics hold, absent category/source leaves the text untouched, and the CLI writes the library's result.",
+      "Trusts the harness tokenizer mc/cif.py; category position in the file and too-short alphabets are outside the property.", "DESIGN.md 3/C20")
